@@ -9,7 +9,9 @@ import (
 // Every template returns a partially filled spec (Tmpl, Kind, Code, Aux, Input,
 // Gas, Value, To); finish() adds the block context.
 
-type tmplFunc func(r *fw.Rand, e *epoch) *spec
+// k is the index of the case among those of the same template and epoch: forced
+// sub-classes (which precompile, ...) rotate on it instead of on the PRNG.
+type tmplFunc func(r *fw.Rand, e *epoch, k int) *spec
 
 type tmpl struct {
 	name  string
@@ -128,7 +130,7 @@ func auxProgram(r *fw.Rand, e *epoch) []byte {
 
 // --- generic ---------------------------------------------------------------
 
-func tStructured(r *fw.Rand, e *epoch) *spec {
+func tStructured(r *fw.Rand, e *epoch, k int) *spec {
 	sp := &spec{Code: hx(structured(r, e, r.Range(4, 45))), Aux: hx(auxProgram(r, e)), Input: hx(randInput(r)), Value: topValue(r)}
 	sp.Gas = pickGas(r, []uint64{100000, 1000000, 1000000, blockGasLimit}[r.Intn(4)])
 	if r.Chance(1, 10) && e.byz {
@@ -138,7 +140,7 @@ func tStructured(r *fw.Rand, e *epoch) *spec {
 	return sp
 }
 
-func tRandomBytes(r *fw.Rand, e *epoch) *spec {
+func tRandomBytes(r *fw.Rand, e *epoch, k int) *spec {
 	sp := &spec{Code: hx(randomBytes(r, e)), Aux: hx(randomBytes(r, e)), Input: hx(randInput(r)), Value: topValue(r)}
 	sp.Gas = pickGas(r, []uint64{100000, 1000000}[r.Intn(2)])
 	if r.Chance(1, 6) {
@@ -149,7 +151,7 @@ func tRandomBytes(r *fw.Rand, e *epoch) *spec {
 
 // --- truncated PUSH ----------------------------------------------------------
 
-func tTruncPush(r *fw.Rand, e *epoch) *spec {
+func tTruncPush(r *fw.Rand, e *epoch, k int) *spec {
 	g := newGen(r, e)
 	for i, n := 0, r.Intn(4); i < n; i++ {
 		g.stmt(false)
@@ -175,7 +177,7 @@ func tTruncPush(r *fw.Rand, e *epoch) *spec {
 
 // --- jumps -------------------------------------------------------------------
 
-func tJump(r *fw.Rand, e *epoch) *spec {
+func tJump(r *fw.Rand, e *epoch, k int) *spec {
 	p, ls := &prog{}, &labels{}
 	good := ls.new()
 	switch r.Intn(8) {
@@ -221,7 +223,7 @@ func repeat(b byte, n int) []byte {
 
 // --- memory operands from the boundary lattice -------------------------------
 
-func tMemLattice(r *fw.Rand, e *epoch) *spec {
+func tMemLattice(r *fw.Rand, e *epoch, k int) *spec {
 	g := newGen(r, e)
 	p := g.p
 	for i, n := 0, r.Intn(3); i < n; i++ {
@@ -287,7 +289,7 @@ func tMemLattice(r *fw.Rand, e *epoch) *spec {
 
 // --- recursion to the depth limit --------------------------------------------
 
-func tRecursion(r *fw.Rand, e *epoch) *spec {
+func tRecursion(r *fw.Rand, e *epoch, k int) *spec {
 	p := &prog{}
 	flag := uint64(r.Intn(2)) // 1: every level fails after its callee returned
 	var tgt int
@@ -403,8 +405,12 @@ func precompileInput(r *fw.Rand, n int) []byte {
 	}
 }
 
-func tPrecompile(r *fw.Rand, e *epoch) *spec {
-	n := r.Range(1, 9)
+func tPrecompile(r *fw.Rand, e *epoch, k int) *spec {
+	// which precompile is forced by the rotation (9 = the first address that is none)
+	n := []int{1, 2, 3, 4, 1, 2, 3, 4, 9, 5}[k%10]
+	if e.byz {
+		n = []int{5, 6, 7, 8, 1, 2, 3, 4, 5, 6, 7, 8, 9}[k%13]
+	}
 	in := precompileInput(r, n)
 	sp := &spec{Input: hx(in), Value: topValue(r)}
 	if r.Chance(1, 5) {
@@ -458,7 +464,7 @@ func tPrecompile(r *fw.Rand, e *epoch) *spec {
 
 // --- value-bearing calls -------------------------------------------------------
 
-func tValueCalls(r *fw.Rand, e *epoch) *spec {
+func tValueCalls(r *fw.Rand, e *epoch, k int) *spec {
 	g := newGen(r, e)
 	p := g.p
 	if r.Bool() {
@@ -486,7 +492,7 @@ func tValueCalls(r *fw.Rand, e *epoch) *spec {
 
 // --- SELFDESTRUCT ----------------------------------------------------------------
 
-func tSelfdestruct(r *fw.Rand, e *epoch) *spec {
+func tSelfdestruct(r *fw.Rand, e *epoch, k int) *spec {
 	ben := [][20]byte{addrT, addrAux, addrNonex, addrEOA, addrEmpty, addrPre(1), addrPre(2), addrPre(3), addrPre(4), addrOrigin, {}, addrLib(libOKW)}
 	pick := func() [20]byte { return ben[r.Intn(len(ben))] }
 	aux := &prog{}
@@ -521,7 +527,7 @@ func tSelfdestruct(r *fw.Rand, e *epoch) *spec {
 
 // --- the static sandbox ------------------------------------------------------------
 
-func tStatic(r *fw.Rand, e *epoch) *spec {
+func tStatic(r *fw.Rand, e *epoch, k int) *spec {
 	sp := &spec{Input: hx(randInput(r))}
 	writers := []int{libW_SSTORE, libW_LOG0, libW_LOG4, libW_CREATE, libW_SUICIDE, libW_CALLVALUE, libW_CALLOKW, libW_DELEGATEOKW, libW_CALLCODEVALUE, libW_CALLCODEOKW, libOKW, libREV, libINV}
 	w := addrLib(writers[r.Intn(len(writers))])
@@ -570,7 +576,7 @@ func tStatic(r *fw.Rand, e *epoch) *spec {
 
 // --- failing frames with prior effects ------------------------------------------------
 
-func tFrameRevert(r *fw.Rand, e *epoch) *spec {
+func tFrameRevert(r *fw.Rand, e *epoch, k int) *spec {
 	g := newGen(r, e)
 	p := g.p
 	if r.Bool() {
@@ -619,7 +625,7 @@ func tFrameRevert(r *fw.Rand, e *epoch) *spec {
 
 // --- stack limits ------------------------------------------------------------------
 
-func tStack(r *fw.Rand, e *epoch) *spec {
+func tStack(r *fw.Rand, e *epoch, k int) *spec {
 	p := &prog{}
 	fill := func(n int) {
 		for i := 0; i < n; i++ {
@@ -653,7 +659,7 @@ func tStack(r *fw.Rand, e *epoch) *spec {
 
 // --- return data ----------------------------------------------------------------------
 
-func tReturnData(r *fw.Rand, e *epoch) *spec {
+func tReturnData(r *fw.Rand, e *epoch, k int) *spec {
 	g := newGen(r, e)
 	p := g.p
 	lat := func() *big.Int {
@@ -683,7 +689,7 @@ func tReturnData(r *fw.Rand, e *epoch) *spec {
 
 // --- top-level creation -------------------------------------------------------------------
 
-func tCreateTop(r *fw.Rand, e *epoch) *spec {
+func tCreateTop(r *fw.Rand, e *epoch, k int) *spec {
 	g := newGen(r, e)
 	var code []byte
 	switch r.Intn(4) {
